@@ -32,7 +32,7 @@ func isMut(k string) bool { return k == "put" || k == "activate" || k == "delver
 
 var profC01 = &dbProfile{
 	Name: "C01", N: map[string]int{"quick": 500, "thorough": 20000}, MinLen: 6, MaxLen: 30,
-	Callers: mixedCallers,
+	Callers: mixedCallers, AuditP: 0.06, // a failing audit sink must not let an ungranted call through
 	Weights: map[string]int{"put": 22, "activate": 10, "delver": 10, "del": 6, "get": 10, "getver": 10, "info": 10, "list": 10, "getcond": 12},
 	Nontrivial: func(in DBInput, obs []stepObs) bool {
 		den, ok := 0, 0
